@@ -47,8 +47,10 @@ def make_synthetic(d, seed, n_chr):
 
 
 class Config:
-    def __init__(self, name, data, genedb=True, groups=None, keep_tmp=False, threads=None, seed=0, n_chr=1):
+    def __init__(self, name, data, genedb=True, groups=None, keep_tmp=False, threads=None, seed=0, n_chr=1, pooled=False, glob_order=None):
         self.name, self.data, self.genedb, self.groups, self.keep_tmp, self.threads, self.seed, self.n_chr = name, data, genedb, groups, keep_tmp, threads, seed, n_chr
+        self.glob_order = glob_order      # order in which glob.glob lists the temporary files for the clean-up (None: lexicographic)
+        self.pooled = pooled      # several chromosomes on several worker processes: the interleaving is not deterministic, no model correspondence
 
     def prepare(self, root):
         self.src = os.path.join(root, "data_" + self.name)
@@ -70,7 +72,7 @@ class Config:
 
     def describe(self):
         return dict(config=self.name, data=self.data if self.data == "bundled" else "gen_data.World(seed=%d, n_chr=%d)" % (self.seed, self.n_chr), genedb=self.genedb,
-                    read_group=self.groups, keep_tmp=self.keep_tmp, threads=self.threads or "default")
+                    read_group=self.groups, keep_tmp=self.keep_tmp, threads=self.threads or "default", glob_order=self.glob_order or "sorted")
 
     # ---- the output layout of this configuration (ReadAssignmentAggregator / GFFPrinter / merge_* in source order) ----
     def layout(self):
@@ -225,6 +227,7 @@ def finals(outdir):
 def invoke(cfg, d, env, resume=False):
     out = os.path.join(d, "out"); home = os.path.join(d, "home")
     e = dict(env, ABLAB_ISOQUANT_VERIF="1", C07_TRACE=os.path.join(d, "resume.trace" if resume else "run.trace"))
+    if cfg.glob_order: e["C07_GLOB_ORDER"] = cfg.glob_order
     try:
         return P.run_isoquant(out, ["--resume"] if resume else cfg.args(os.path.join(d, "data")), home=home, wrapper=WRAP, env_extra=e, timeout=900)
     except Exception as ex:                              # a hanging run is a failure of that run, not of the check
@@ -244,7 +247,8 @@ def crash_point(cfg, root, env, k, when, clean_finals):
     try:
         shutil.copytree(cfg.src, os.path.join(d, "data"))
         rc1, log1 = invoke(cfg, d, dict(env, C07_CRASH_AT=str(k), C07_CRASH_WHEN=when))
-        ntr = len(read_trace(os.path.join(d, "run.trace")))
+        ctr = read_trace(os.path.join(d, "run.trace")); ntr = len(ctr)
+        prefix = convert_trace(ctr, Names(cfg, d)) if cfg.pooled else None
         rc2, log2 = invoke(cfg, d, env, resume=True)
         fin = finals(os.path.join(d, "out"))
         # per-chromosome parts left behind are no final outputs; everything the clean run produced must be there and equal
@@ -252,32 +256,32 @@ def crash_point(cfg, root, env, k, when, clean_finals):
         extra = sorted(f for f in fin if f not in clean_finals)
         cls = "fails" if rc2 != 0 else "identical" if not diff else "different"
         err = [l.strip() for l in log2.splitlines() if re.search(r"Error|error|Traceback|assert", l)][-3:]
-        return dict(config=cfg.name, k=k, when=when, rc_crash=rc1, crash_trace_len=ntr, rc_resume=rc2, outcome=cls, differing=diff[:6], leftover=extra[:6], resume_error=err)
+        return dict(config=cfg.name, k=k, when=when, rc_crash=rc1, crash_trace_len=ntr, rc_resume=rc2, outcome=cls, differing=diff[:6], leftover=extra[:6], resume_error=err,
+                    prefix=prefix, last_file=ctr[k - 1]["path"].split(os.sep + "out" + os.sep)[-1] if len(ctr) >= k else None)
     finally:
         shutil.rmtree(d, ignore_errors=True)
 
 
 # ------------------------------------------------------------------ structural keys, computed from the clean trace only
-def classify_failure(ticks, k, when):
-    """the window a failing crash point lies in; p = number of mutations that were executed"""
-    p = k if when == "after" else k - 1
-    part_rm = [i + 1 for i, t in enumerate(ticks) if t[0] == 2 and t[1].startswith("(Part")]
-    proc_rm = [i + 1 for i, t in enumerate(ticks) if t[0] == 2 and t[1].startswith("(Processed")]
-    # the first part is gone, the last _processed lock is not (with --keep_tmp the locks are never removed: the window stays open)
-    if part_rm and part_rm[0] <= p and (not proc_rm or (part_rm[0] < max(proc_rm) and p < max(proc_rm))):
+def classify_failure(executed, last):
+    """the window a failing crash point lies in, from the mutations that were executed before the kill (`executed`) and the mutation
+       that was executed last when the kill came right after it (`last`, else None)"""
+    removed = set(); present = set()
+    for t in executed:
+        if t[0] in (0, 1): present.add(t[1]); removed.discard(t[1])
+        elif t[0] == 2: present.discard(t[1]); removed.add(t[1])
+    # the first per-chromosome file is gone while a _processed lock still makes stage 2 skip its regeneration
+    if any(r.startswith("(Part") for r in removed) and any(l.startswith("(Processed") for l in present):
         return KEY_MERGE
     # clean-up: a lock is still there although a file it vouches for has been removed
-    removed = set(t[1] for t in ticks[:p] if t[0] == 2); created = set(t[1] for t in ticks[:p] if t[0] in (0, 1))
-    present = created - removed
     def idx(t): return t[t.index(" ") + 1:-1]
     for l in present:
         if l.startswith("(Collected") and any(("(%s %s)" % (c, idx(l))) in removed for c in ("Save", "Groups", "Bamstat")): return KEY_CLEANUP
         if l == "SaveLock" and ("Info" in removed or any(r.startswith(("(Multi", "(Save")) for r in removed)): return KEY_CLEANUP
         if l == "RGLock" and any(r.startswith("(RGPart") for r in removed): return KEY_CLEANUP
-    if when == "after" and 1 <= k <= len(ticks):
-        t = ticks[k - 1]
-        if t[0] == 0 and t[1].startswith("(Collected") and any(o.startswith("(Save") for o in t[2]): return KEY_LOCK_OPEN
-        if t[0] == 0 and t[1].startswith("(Processed") and any(o.startswith("(Part") for o in t[2]): return KEY_LOCK_OPEN
+    if last is not None:
+        if last[0] == 0 and last[1].startswith("(Collected") and any(o.startswith("(Save") for o in last[2]): return KEY_LOCK_OPEN
+        if last[0] == 0 and last[1].startswith("(Processed") and any(o.startswith("(Part") for o in last[2]): return KEY_LOCK_OPEN
     return None
 
 
@@ -326,9 +330,13 @@ def configs(ctx, quick):
           Config("bundled_keep_tmp", "bundled", keep_tmp=True),
           Config("bundled_no_annotation", "bundled", genedb=False),
           Config("syn3_groups", "syn", groups="file", threads=1, seed=ctx.seed + 6, n_chr=3),
-          Config("syn2_tag_keep_tmp", "syn", groups="tag", keep_tmp=True, threads=1, seed=ctx.seed + 11, n_chr=2)]
+          Config("syn2_tag_keep_tmp", "syn", groups="tag", keep_tmp=True, threads=1, seed=ctx.seed + 11, n_chr=2),
+          Config("syn3_pool", "syn", groups="file", threads=3, seed=ctx.seed + 6, n_chr=3, pooled=True),
+          Config("bundled_glob_reverse", "bundled", glob_order="reverse"),
+          Config("syn2_glob_locks_last", "syn", groups="file", threads=1, seed=ctx.seed + 11, n_chr=2, glob_order="locks_last")]
     quota = {"bundled": 10 ** 6, "bundled_groups": 24 if quick else 10 ** 6, "bundled_keep_tmp": 16 if quick else 10 ** 6, "bundled_no_annotation": 16 if quick else 10 ** 6,
-             "syn3_groups": 60 if quick else 10 ** 6, "syn2_tag_keep_tmp": 24 if quick else 10 ** 6}
+             "syn3_groups": 60 if quick else 10 ** 6, "syn2_tag_keep_tmp": 24 if quick else 10 ** 6, "syn3_pool": 16 if quick else 160,
+             "bundled_glob_reverse": 16 if quick else 10 ** 6, "syn2_glob_locks_last": 16 if quick else 10 ** 6}
     return cs, quota
 
 
@@ -350,11 +358,14 @@ def run(ctx, only=None):
             if rc != 0 or not tr:
                 ctx.broken("pipeline:%s" % c.name, "the clean run exits %d: %s" % (rc, log[-1200:])); continue
             names = Names(c, d); ticks = convert_trace(tr, names); variant = detect_variant(ticks)
-            term, cleanup = coq_cfg(c, names, ticks, variant)
             pk = [r["n"] for r in tr if r["path"].endswith(os.sep + ".params")]
-            info = dict(cfg=c, tr=tr, ticks=ticks, fin=fin, names=names, variant=variant, idx=len(cfg_terms), first=(pk[0] + 1) if pk else 1, cleanup=cleanup)
-            infos.append(info); cfg_terms.append(term)
-            tcases.append(("(%d%%nat, %s)" % (info["idx"], clist(ticks, ctick)), dict(c.describe(), mutations=len(ticks), variant=variant)))
+            if c.pooled: variant = "not determined (several workers interleave)"
+            info = dict(cfg=c, tr=tr, ticks=ticks, fin=fin, names=names, variant=variant, idx=None, first=(pk[0] + 1) if pk else 1)
+            infos.append(info)
+            if not c.pooled:
+                term, cleanup = coq_cfg(c, names, ticks, variant)
+                info["idx"] = len(cfg_terms); cfg_terms.append(term)
+                tcases.append(("(%d%%nat, %s)" % (info["idx"], clist(ticks, ctick)), dict(c.describe(), mutations=len(ticks), variant=variant)))
             shutil.rmtree(d, ignore_errors=True)
         pre = lambda p: p.replace("CFGS", ";\n".join(cfg_terms))
         if os.environ.get("C07_DUMP_CFGS"):
@@ -362,15 +373,15 @@ def run(ctx, only=None):
                 for i, t in zip(infos, cfg_terms): f.write("(* %s %s *)\n%s\n" % (i["cfg"].name, i["variant"], t))
         mism, viol = ctx.corr("clean_trace_is_model_program", pre(PRE_TRACE), tcases, shard=1, timeout=300, ctype="nat * list (N * fname * list fname)")
         for o in mism:                                   # say where the traces part
-            i = [x["idx"] for x in infos if x["cfg"].name == o["config"]][0]; t = infos[i]["ticks"]
+            inf = [x for x in infos if x["cfg"].name == o["config"]][0]; i = inf["idx"]; t = inf["ticks"]
             txt = coq_eval(ctx, pre(PRE_TRACE), "let m := ticks (the %d%%nat) in let r := %s in let i := first_diff m r 1%%nat in (i, length m, length r, nth (pred i) m (0, Info, []), nth (pred i) r (0, Info, []), cleanup_ok (the %d%%nat))"
                            % (i, clist(t, ctick), i))
             o["first_difference(index, |model|, |real|, model tick, real tick, cleanup_ok)"] = re.sub(r"\s+", " ", txt[txt.find("="):])[:900]
         ctx.corr_report("clean_trace_is_model_program", mism, viol)
         bad_cfg = set(o["config"] for o in mism)
         ctx.rule("clean runs of the real pipeline under harness/c07_wrapper.py (mutation = open in a writing mode incl. gzip, os.remove, rename/replace, mkdir, shutil.move/copy; glob order fixed to "
-                 "'sorted'): bundled chr9 data (default, --read_group file:, --keep_tmp, without --genedb; 16 threads) and gen_data.World genomes with 3 and 2 chromosomes (--threads 1, read groups from a "
-                 "file / from the RG tag, --keep_tmp); the logged sequence (operation kind, file, set of files open for writing at that moment) must be `ticks cfg`, the model's program for that "
+                 "'sorted', for two configurations to reverse order / locks last): bundled chr9 data (default, --read_group file:, --keep_tmp, without --genedb; 16 threads) and gen_data.World genomes with "
+                 "3 and 2 chromosomes (--threads 1, read groups from a file / from the RG tag, --keep_tmp); the logged sequence (operation kind, file, set of files open for writing at that moment) must be `ticks cfg`, the model's program for that "
                  "chromosome list and output layout, and the clean-up list must be exactly the auxiliary files the model leaves")
 
         # ---- fault enumeration
@@ -392,19 +403,28 @@ def run(ctx, only=None):
         ocases = []; summary = collections.defaultdict(lambda: collections.Counter())
         for info, r in results:
             c = info["cfg"]; ticks = info["ticks"]
-            if r["rc_crash"] == 0 or r["crash_trace_len"] != (r["k"] if r["when"] == "after" else r["k"] - 1):
-                ctx.broken("harness:crash-injection", "the run was not killed at the requested mutation: %s" % json.dumps(r)); continue
+            want_len = r["k"] if r["when"] == "after" else r["k"] - 1
+            # several workers: between the k-th mutation and the kill right after it another process may get a mutation in
+            if r["rc_crash"] == 0 or (r["crash_trace_len"] < want_len if (c.pooled and r["when"] == "after") else r["crash_trace_len"] != want_len):
+                r.pop("prefix", None); ctx.broken("harness:crash-injection", "the run was not killed at the requested mutation: %s" % json.dumps(r)); continue
             summary[c.name][r["outcome"]] += 1
-            if c.name not in bad_cfg:
-                ocases.append(("(%d%%nat, %d%%nat, %s, %s)" % (info["idx"], r["k"], cbool(r["when"] == "after"), OUTC[r["outcome"]]), r))
-            tick = ticks[r["k"] - 1] if r["k"] <= len(ticks) else None
+            prefix = r.pop("prefix")
+            if c.pooled:        # the k-th mutation of THIS run (the workers interleave differently every time)
+                executed = prefix; last = prefix[r["k"] - 1] if (r["when"] == "after" and len(prefix) >= r["k"]) else None
+                tick = last; real_file = r["last_file"] if last else None
+            else:
+                if c.name not in bad_cfg:
+                    ocases.append(("(%d%%nat, %d%%nat, %s, %s)" % (info["idx"], r["k"], cbool(r["when"] == "after"), OUTC[r["outcome"]]), r))
+                executed = ticks[:r["k"] if r["when"] == "after" else r["k"] - 1]; last = ticks[r["k"] - 1] if r["when"] == "after" else None
+                tick = ticks[r["k"] - 1] if r["k"] <= len(ticks) else None
+                real_file = info["tr"][r["k"] - 1]["path"].split(os.sep + "out" + os.sep)[-1] if tick else None
             rep = dict(c.describe(), crash="%s mutation %d of %d" % (r["when"], r["k"], len(ticks)), mutation="%s %s" % ({0: "open 'w'", 1: "open 'a'", 2: "remove", 3: "external"}[tick[0]], tick[1]) if tick else None,
-                       real_file=info["tr"][r["k"] - 1]["path"].split(os.sep + "out" + os.sep)[-1] if tick else None, then="isoquant.py --resume -o <same dir>", rc_resume=r["rc_resume"], outcome=r["outcome"],
+                       real_file=real_file, then="isoquant.py --resume -o <same dir>", rc_resume=r["rc_resume"], outcome=r["outcome"],
                        differing_finals=r["differing"], resume_error=r["resume_error"], replay=dict(config=c.name, k=r["k"], when=r["when"]), code_variant=info["variant"])
             if r["outcome"] == "different":
                 ctx.violation(None, "the resumed run exits 0 but final outputs differ from the uninterrupted run (truncated or missing results)", rep)
             elif r["outcome"] == "fails":
-                key = classify_failure(ticks, r["k"], r["when"])
+                key = classify_failure(executed, last)
                 ctx.violation(key, {KEY_MERGE: "a run killed after merge_files removed the first per-chromosome file and before the last _processed lock is gone can never be resumed (--resume fails in os.remove)",
                                     KEY_CLEANUP: "a run killed during the clean-up leaves a lock whose files are already removed: --resume fails",
                                     KEY_LOCK_OPEN: "a run killed right after a lock file was created, while the files it vouches for were still open: --resume fails on the cut-off file",
@@ -429,7 +449,8 @@ def run(ctx, only=None):
                  "`isoquant.py --resume` then runs in the same output directory with the same HOME; every final file of the clean run is compared byte for byte (gz decompressed, the '# Command line' "
                  "header ignored); outcome in {identical, fails (exit code != 0), different}; EVERY point of the bundled run, sampled points (all lock creations/removals, phase borders, random) of the other "
                  "configurations in the quick tier and all of them in the thorough tier; the model must predict every outcome, 'different' is always a violation, 'fails' is keyed by the window "
-                 "computed from the clean trace")
+                 "computed from the mutations executed before the kill; plus a 3-chromosome run on 3 worker processes (kills inside workers; the interleaving differs from run to run, so no model "
+                 "prediction: outcomes are classified from the crashed run's own logged prefix)")
         ctx.assume.append("the kill is a SIGKILL of the process group: data already handed to the OS (closed or flushed files) survives, buffered data is lost; the file system itself is not crashed "
                           "(no loss of closed files, no reordering of directory operations)")
         ctx.assume.append("directory enumeration order (glob) is fixed to lexicographic by the wrapper so that the clean-up phase is deterministic; other orders can be explored with C07_GLOB_ORDER=reverse|locks_last|fs")
